@@ -29,8 +29,8 @@ for d in demos:
         for i, m in enumerate(d["mutations"]):
             src = open(os.path.join(R, m["file"])).read()
             if src.count(m["old"]) != 1:
-                print("DEMO %s: pattern occurs %d times in %s" % (d["name"], src.count(m["old"]), m["file"]))
-                raise SystemExit(2)
+                print("DEMO %s: PATTERN occurs %d times in %s" % (d["name"], src.count(m["old"]), m["file"]))
+                raise KeyError("pattern")
             mf = os.path.join(scratch, "m%d.go" % i)
             open(mf, "w").write(src.replace(m["old"], m["new"]))
             rep[os.path.join(R, m["file"])] = mf
@@ -52,6 +52,8 @@ for d in demos:
             if p.returncode not in (0, 1):
                 print(p.stdout[-2000:], p.stderr[-2000:])
         results.append(res)
+    except KeyError:
+        results.append({"name": d["name"], "error": "pattern not found"})
     finally:
         shutil.rmtree(scratch, ignore_errors=True)
 json.dump(results, open(resfile, "w"), indent=1)
